@@ -54,25 +54,26 @@ type Seq struct {
 	held   map[int]*heldSearch
 	issued map[string]bool
 
-	step        int
-	curOp       *Op
-	rejected    bool // the last write was rejected
-	sinceReopen int
-	quiescent   bool // nothing can be pending (sync mode, or after flush+commit / close)
-	prng        *simrt.Rand
-	Stats       map[string]int
-	hooks       []hookEv
-	hookOn      bool
-	bulkHooks   bool // several chunks: file mutations of earlier chunks precede later hooks
-	Hooks       Hooks
-	KnownSample map[string]string
-	NoReopen    bool                    // differential attribution for C04: restarts become no-ops
-	History     map[int]map[string]bool // every accepted value of every object (async crash oracle)
-	everAsync   bool
-	small       *smallModel
-	smallAsync  bool              // async setting of the second collection (it has its own schema)
-	smallDirty  bool              // the second collection may have pending async writes
-	Loose       map[string]string // outcomes the model leaves open, keyed by call (compared across configurations by C12)
+	step           int
+	curOp          *Op
+	rejected       bool // the last write was rejected
+	sinceReopen    int
+	quiescent      bool // nothing can be pending (sync mode, or after flush+commit / close)
+	prng           *simrt.Rand
+	Stats          map[string]int
+	hooks          []hookEv
+	hookOn         bool
+	bulkHooks      bool // several chunks: file mutations of earlier chunks precede later hooks
+	Hooks          Hooks
+	KnownSample    map[string]string
+	NoReopen       bool                    // differential attribution for C04: restarts become no-ops
+	History        map[int]map[string]bool // every accepted value of every object (async crash oracle)
+	everAsync      bool
+	small          *smallModel
+	smallAsync     bool              // async setting of the second collection (it has its own schema)
+	smallDirty     bool              // the second collection may have pending async writes
+	smallTimeoutMs int64             // and the timeout of its flusher
+	Loose          map[string]string // outcomes the model leaves open, keyed by call (compared across configurations by C12)
 }
 
 // Hooks lets other scenarios (crash, iofault, diff, ...) observe the run.
@@ -576,9 +577,13 @@ func (s *Seq) opFlush(op *Op) {
 		} else {
 			err = s.db.FlushAndCommit(o)
 		}
-		// the object file was written after the last commit of the schema: the
-		// collection is not in a committed state until the next commit
+		// Flush writes the object file after the last commit of the schema: the
+		// collection is not in a committed state until the next commit;
+		// FlushAndCommit ends with that commit
 		s.quiescent = false
+		if op.Mode == "onecommit" && err == nil {
+			s.syncCommitted()
+		}
 	}
 	if op.Mode == "commit" && err == nil {
 		s.syncCommitted()
@@ -650,6 +655,7 @@ func (s *Seq) reopen(closeFirst bool, create bool) {
 				s.fail("reopen", "create-after-reopen-failed", "Create of the second collection after reopen failed: %v", err)
 			}
 			s.smallAsync = s.Cfg.Async
+			s.smallTimeoutMs = s.Cfg.TimeoutMs
 		}
 	}
 	s.sinceReopen = 0
